@@ -1061,6 +1061,7 @@ func (s *Spec) stateOracles(e *Exec, t, r []string) {
 		s.committed(e)
 		s.agreement(e)
 		s.readsAreFiles(e)
+		s.layoutNames(e)
 	case "repair":
 		if e.repairTouched && !s.faulted && s.crashCtx == "" {
 			s.fail(e, "C11", "Repair modified, added or deleted an object file (digest of the directory entries other than schema.json changed)")
@@ -1232,6 +1233,28 @@ func (s *Spec) readsAreFiles(e *Exec) {
 				if s.reopened || s.outside || s.crashCtx != "" {
 					s.fail(e, "C05", "[after repair or reopen] All returns for object #%d a content that is not the content of its file", u)
 				}
+				return
+			}
+		}
+	}
+}
+
+// layoutNames (C18): every object file is named <uuid><extension>, with an added .gz exactly when the
+// collection is compressed (whatever the extension itself ends with)
+func (s *Spec) layoutNames(e *Exec) {
+	if s.mute || s.variant > 1 || s.outside {
+		return
+	}
+	want := e.cfg.Ext
+	if e.diskCompress() {
+		want += ".gz"
+	}
+	for _, l := range e.obs {
+		f := strings.Fields(l)
+		if len(f) >= 3 && f[0] == "s" && f[1] == "file" && strings.HasPrefix(f[2], "U") {
+			u := canonU(f[2])
+			if suf := f[2][len(u):]; suf != want {
+				s.fail(e, "C18", "the file of object %s is named <uuid>%s, the layout is <uuid>%s (extension %q, compression %v)", u, suf, want, e.cfg.Ext, e.diskCompress())
 				return
 			}
 		}
